@@ -68,6 +68,16 @@ Theorem C05_time_blocks :
 Proof. exact block_physics. Qed.
 Print Assumptions C05_time_blocks.
 
+(* ... and without "start level = end level" the statement is FALSE of the faithful model (known finding of the unchanged tree,
+   reported as KNOWN-FINDING by the check with the replay on the implementation): a point that satisfies all rows and bounds
+   and whose level is below zero. *)
+Theorem C05_time_blocks_start_differs_from_end_refuted :
+  exists p n dt aa x t, n = List.length dt /\ blocks_coherent aa n = true /\ sp_inflow p == 0 /\ storage_ctor_ok p = true /\
+    Forall (row_ok x) (st_block_rows p n dt aa) /\ in_box (st_l p n dt) (st_u p n dt) x /\ (t < n)%nat /\
+    level p n dt x t < 0.
+Proof. exact blocks_start_ne_end_refuted. Qed.
+Print Assumptions C05_time_blocks_start_differs_from_end_refuted.
+
 (* no simultaneous charge and discharge when the mode variable is binary *)
 Theorem C05_no_simultaneous :
   forall name n cp ct I a x i, (i < n)%nat ->
